@@ -62,6 +62,9 @@ func (h *sfLogHook) Levels() []log.Level {
 }
 
 func (h *sfLogHook) Fire(e *log.Entry) error {
+	if os.Getenv("VERIF_LOG_ERRORS") == "stderr" { // manual triage of a worker that never answers
+		fmt.Fprintln(os.Stderr, "LOGERR", trunc(e.Message, 4000))
+	}
 	h.mu.Lock()
 	if len(h.msgs) < 64 {
 		h.msgs = append(h.msgs, trunc(e.Message, 700))
@@ -973,6 +976,12 @@ func sfJudge(ds *sfDataset, qs []sfQuery, clean, got []sfAns, damaged map[int]bo
 				}
 				gs := big.NewInt(0)
 				gcount := 0
+				if vals, present := g.rows[key]; present && g.err == "" && strings.HasPrefix(fc, "sst") && strings.Join(vals, ";") != strings.Join(cvals, ";") {
+					// the segment statistics hold ready-made aggregates: a changed byte there gives an arbitrary number (a carry
+					// into or out of the bits of other events included), not an aggregate over fewer events
+					j.fail("altered-value-served", fc, fmt.Sprintf("%s group %q: %s, the ingested data gives %s", where, sfUnhex(key), strings.Join(vals, ";"), strings.Join(cvals, ";")))
+					continue
+				}
 				if vals, present := g.rows[key]; present && g.err == "" {
 					if sv := vals[sumIdx]; sv != "none" {
 						n, ok2 := new(big.Int).SetString(sv, 10)
@@ -1002,6 +1011,10 @@ func sfJudge(ds *sfDataset, qs []sfQuery, clean, got []sfAns, damaged map[int]bo
 							j.fail("wrong-event-returned", fc, fmt.Sprintf("%s group %q: sum(n) = %s counts event(s) %s, which do not satisfy the query / belong to the group on the ingested values (expected sum %s)", where, sfUnhex(key), vals[sumIdx], strings.Join(wrong, ", "), cvals[sumIdx]))
 						} else {
 							j.fail("altered-value-served", fc, fmt.Sprintf("%s group %q: sum(n) = %s is not a sum over ingested events (all of the group: %s)", where, sfUnhex(key), vals[sumIdx], cvals[sumIdx]))
+						}
+						if !genuine {
+							// the value is wrong as a whole (a carry moves bits of other events): which events it lacks cannot be told
+							continue
 						}
 						gs = new(big.Int).And(gs, cs)
 					}
